@@ -139,8 +139,22 @@ def abstract_nl(assertions):
     return out + lemmas, len(ab.apps)
 
 
+def _z3_check(assertions, timeout_ms, tag="z3"):
+    t0 = time.time()
+    s = _mk_solver(timeout_ms)
+    for a in assertions:
+        s.add(a)
+    r = s.check()
+    dt = time.time() - t0
+    STATS.setdefault(tag, [0, 0.0])
+    STATS[tag][0] += 1
+    STATS[tag][1] += dt
+    return r, s, dt
+
+
 def check_sat(assertions, timeout_ms=10000, want_model=True, fallback=True):
-    """Decide satisfiability of the conjunction of `assertions` (z3 BoolRefs)."""
+    """Decide satisfiability of the conjunction of `assertions` (z3 BoolRefs).
+    Portfolio, in order: z3 on the nonlinear abstraction (unsat only) -> z3 (short) -> cvc5 -> z3 (full budget) -> z3 4.8."""
     t0 = time.time()
     try:
         simp = [z3.simplify(a, som=False) for a in assertions]
@@ -148,48 +162,43 @@ def check_sat(assertions, timeout_ms=10000, want_model=True, fallback=True):
     except Exception:
         napps = 0
     if napps:
-        sa = _mk_solver(max(2000, timeout_ms // 2))
-        for a in abstracted:
-            sa.add(a)
-        ra = sa.check()
-        dta = time.time() - t0
-        STATS.setdefault("z3+nl-abstraction", [0, 0.0])
-        STATS["z3+nl-abstraction"][0] += 1
-        STATS["z3+nl-abstraction"][1] += dta
+        ra, sa, dta = _z3_check(abstracted, max(2000, timeout_ms // 2), "z3+nl-abstraction")
         if ra == z3.unsat:
             return "unsat", None, "z3+nl-abstraction", dta
-    s = _mk_solver(timeout_ms)
-    for a in assertions:
-        s.add(a)
-    r = s.check()
-    dt = time.time() - t0
-    STATS["z3"][0] += 1
-    STATS["z3"][1] += dt
+    quick = min(3000, timeout_ms)
+    r, s, dt = _z3_check(assertions, quick)
     if r == z3.unsat:
-        return "unsat", None, "z3", dt
+        return "unsat", None, "z3", time.time() - t0
     if r == z3.sat:
-        return "sat", (s.model() if want_model else None), "z3", dt
-    if not (fallback and FALLBACK):
-        return "unknown", None, "z3", dt
-    # fall back to external solvers on the SMT-LIB text
-    smt2 = "(set-logic ALL)\n" + s.to_smt2().replace("(set-info :status unknown)", "")
-    t1 = time.time()
-    if os.path.exists(CVC5):
-        res = _run_external(
-            [CVC5, "--tlimit=%d" % timeout_ms, "--nl-ext-tplanes"], smt2, timeout_ms / 1000.0
-        )
-        d = time.time() - t1
+        return "sat", (s.model() if want_model else None), "z3", time.time() - t0
+    if os.environ.get("PYVC_DUMP"):
+        global _DUMP_N
+        _DUMP_N = globals().get("_DUMP_N", 0) + 1
+        with open("%s_%d.smt2" % (os.environ["PYVC_DUMP"], _DUMP_N), "w") as f:
+            f.write("(set-logic ALL)\n" + s.to_smt2())
+    smt2 = None
+    if fallback and FALLBACK and os.path.exists(CVC5):
+        smt2 = "(set-logic ALL)\n" + s.to_smt2().replace("(set-info :status unknown)", "")
+        t1 = time.time()
+        res = _run_external([CVC5, "--tlimit=%d" % timeout_ms, "--nl-ext-tplanes"], smt2, timeout_ms / 1000.0)
         STATS["cvc5"][0] += 1
-        STATS["cvc5"][1] += d
-        if res in ("unsat", "sat"):
-            # a 'sat' from an external solver has no model in our hands: report it without a model
-            return res, None, "cvc5", time.time() - t0
-    t2 = time.time()
-    if os.path.exists(Z3_OLD):
+        STATS["cvc5"][1] += time.time() - t1
+        if res == "unsat":
+            return "unsat", None, "cvc5", time.time() - t0
+        # a 'sat' from cvc5 is not trusted for quantified formulas without a model in hand; keep looking with z3
+    if timeout_ms > quick:
+        r, s, dt = _z3_check(assertions, timeout_ms)
+        if r == z3.unsat:
+            return "unsat", None, "z3", time.time() - t0
+        if r == z3.sat:
+            return "sat", (s.model() if want_model else None), "z3", time.time() - t0
+    if fallback and FALLBACK and os.path.exists(Z3_OLD):
+        if smt2 is None:
+            smt2 = "(set-logic ALL)\n" + s.to_smt2().replace("(set-info :status unknown)", "")
+        t2 = time.time()
         res = _run_external([Z3_OLD, "-T:%d" % max(1, timeout_ms // 1000)], smt2, timeout_ms / 1000.0)
-        d = time.time() - t2
         STATS["z3-4.8"][0] += 1
-        STATS["z3-4.8"][1] += d
-        if res in ("unsat", "sat"):
-            return res, None, "z3-4.8", time.time() - t0
+        STATS["z3-4.8"][1] += time.time() - t2
+        if res == "unsat":
+            return "unsat", None, "z3-4.8", time.time() - t0
     return "unknown", None, "z3", time.time() - t0
